@@ -34,6 +34,8 @@ fn key(s: &State) -> (u64, u64) {
 }
 
 const POOL: [&str; 15] = ["bound()", "dump", "ignore", "key = $", "by = f", "Foo", "\"lit\"", "reverse", "transparent", "bound(..)", "Clone", "bound(T: , ..)", "Cálculo", "ÑuAssign", "Sub"];
+/// syntactically valid types put in place of a field type, an impl's self type or the operator's Rhs argument
+const TYPE_POOL: [&str; 16] = ["dyn Tr + Send", "dyn Tr", "[u8]", "(u8, X)", "&'a mut T", "fn(u8) -> u8", "*const T", "<T as Tr>::A", "Self", "!", "[T; N]", "Option<Self>", "&dyn Tr", "Box<dyn Tr + Send>", "m!(T)", "(dyn Tr + Send)"];
 const HELPERS: [&str; 8] = ["derive_ex", "debug", "default", "ord", "partial_ord", "eq", "partial_eq", "hash"];
 
 /// delete / duplicate / swap-adjacent / replace / append on a comma separated argument list
@@ -321,6 +323,15 @@ pub fn mutations(s: &State) -> Vec<State> {
                     x.generics = g;
                     push(name, s.entry, s.attr.clone(), x.to_token_stream().to_string());
                 }
+                for i in 0..st.fields.len() {
+                    for t in TYPE_POOL {
+                        let mut x = st.clone();
+                        if let (Some(f), Ok(ty)) = (x.fields.iter_mut().nth(i), syn::parse_str::<syn::Type>(t)) {
+                            f.ty = ty;
+                            push(format!("field{i}:type-{t}"), s.entry, s.attr.clone(), x.to_token_stream().to_string());
+                        }
+                    }
+                }
             }
             syn::Item::Enum(en) => {
                 for (name, a) in attr_site_mutations(&en.attrs) {
@@ -350,6 +361,17 @@ pub fn mutations(s: &State) -> Vec<State> {
                     x.generics = g;
                     push(name, s.entry, s.attr.clone(), x.to_token_stream().to_string());
                 }
+                for vi in 0..en.variants.len() {
+                    for i in 0..en.variants[vi].fields.len() {
+                        for t in TYPE_POOL {
+                            let mut x = en.clone();
+                            if let (Some(f), Ok(ty)) = (x.variants[vi].fields.iter_mut().nth(i), syn::parse_str::<syn::Type>(t)) {
+                                f.ty = ty;
+                                push(format!("variant{vi}:field{i}:type-{t}"), s.entry, s.attr.clone(), x.to_token_stream().to_string());
+                            }
+                        }
+                    }
+                }
             }
             syn::Item::Impl(im) => {
                 for (name, a) in attr_site_mutations(&im.attrs) {
@@ -367,6 +389,21 @@ pub fn mutations(s: &State) -> Vec<State> {
                     let mut x = im.clone();
                     x.items.remove(i);
                     push(format!("impl:delete-item{i}"), s.entry, s.attr.clone(), x.to_token_stream().to_string());
+                }
+                for t in TYPE_POOL {
+                    if let Ok(ty) = syn::parse_str::<syn::Type>(t) {
+                        let mut x = im.clone();
+                        x.self_ty = Box::new(ty.clone());
+                        push(format!("impl:self-type-{t}"), s.entry, s.attr.clone(), x.to_token_stream().to_string());
+                        // the operator's Rhs argument
+                        let mut x = im.clone();
+                        if let Some((_, p, _)) = &mut x.trait_ {
+                            if let Some(seg) = p.segments.last_mut() {
+                                seg.arguments = syn::PathArguments::AngleBracketed(syn::parse_quote!(<#ty>));
+                                push(format!("impl:rhs-{t}"), s.entry, s.attr.clone(), x.to_token_stream().to_string());
+                            }
+                        }
+                    }
                 }
                 let mut x = im.clone();
                 x.trait_ = None;
